@@ -81,6 +81,25 @@ def judge(label, qc, st, solver):
     return out
 
 
+def alpha_i():
+    """classical alphabet on 3 qubits plus the identity gate"""
+    return circorp.alphabet(3, h=False) + [["i", [0]], ["i", [1]]]
+
+
+def alpha_4():
+    """classical gates on 4 qubits including the 3-controlled X"""
+    import itertools as it
+
+    A = [["x", [q]] for q in range(4)]
+    A += [["cx", [a, b]] for a, b in it.permutations(range(4), 2)]
+    for t in range(4):
+        cs = [q for q in range(4) if q != t]
+        for pair in it.combinations(cs, 2):
+            A.append(["ccx", list(pair) + [t]])
+        A.append(["mcx", cs + [t]])
+    return A
+
+
 ALPHA_C = None
 
 
@@ -103,6 +122,10 @@ def make_items(tier, seed):
             items.append(dict(b, fam="enumc", nq=3))
         for b in circorp.enum_batches(A16, 1, 1):
             items.append(dict(b, fam="enum16", nq=3))
+    for b in circorp.enum_batches(alpha_i(), 1, 2):
+        items.append(dict(b, fam="enumi", nq=3))
+    for b in circorp.enum_batches(alpha_4(), 1, 2 if tier == "thorough" else 1):
+        items.append(dict(b, fam="enum4", nq=4))
     rc = circorp.fixed_random(1000 if tier == "thorough" else 200, 4711, kinds=["x", "x", "cx", "cx", "cx", "ccx", "h", "z", "s", "t", "cz", "swap", "cp", "mcx3", "barrier"])
     for i in range(0, len(rc), 20):
         items.append({"fam": "random", "circuits": rc[i : i + 20]})
@@ -114,6 +137,10 @@ def make_items(tier, seed):
         {"nq": 3, "gates": [["cx", [0, 1]], ["cx", [1, 0]]]},
         {"nq": 3, "gates": [["cx", [0, 2]], ["cx", [1, 2]], ["cx", [0, 2]], ["x", [2]], ["x", [2]], ["cx", [1, 2]]]},
         {"nq": 4, "gates": [["mcx", [0, 1, 2, 3]], ["cx", [0, 3]], ["mcx", [0, 1, 2, 3]]]},
+        {"nq": 4, "gates": [["mcx", [0, 1, 2, 3]], ["ccx", [0, 2, 3]]]},
+        {"nq": 5, "gates": [["mcx", [0, 1, 2, 4]], ["mcx", [0, 3, 2, 4]], ["ccx", [0, 2, 4]]]},
+        {"nq": 3, "gates": [["x", [0]], ["i", [0]]]},
+        {"nq": 3, "gates": [["i", [0]], ["x", [0]], ["i", [0]]]},
         {"nq": 3, "gates": [["h", [0]], ["cx", [0, 1]], ["cx", [1, 0]], ["cx", [0, 1]], ["h", [1]]]},
         {"nq": 3, "gates": [["cx", [0, 1]], ["cx", [1, 0]], ["cx", [0, 1]], ["x", [2]]]},
         {"nq": 3, "gates": [["x", [2]], ["cx", [0, 1]], ["cx", [1, 0]], ["cx", [0, 1]]]},
@@ -138,8 +165,8 @@ def make_items(tier, seed):
 def circuits_of(spec):
     import itertools
 
-    if spec["fam"] in ("enum16", "enumc"):
-        A = c11.alpha() if spec["fam"] == "enum16" else alpha_c()
+    if spec["fam"] in ("enum16", "enumc", "enumi", "enum4"):
+        A = {"enum16": c11.alpha, "enumc": alpha_c, "enumi": alpha_i, "enum4": alpha_4}[spec["fam"]]()
         first = spec["prefix"] == [A[0]] * len(spec["prefix"])
         for suf in circorp.suffixes(A, spec["depth"]):
             yield spec["nq"], spec["prefix"] + suf
